@@ -321,7 +321,7 @@ def run_case(case, want_trace=False):
         if interleaved:
             labels.add("clients-interleaved-on-one-key")
         info = {"trace": net.trace(150)} if (want_trace or vio) else None
-        return Outcome(vio, sorted(labels), out_of_seq or long_idle or interleaved or len(case["steps"]) == 2 and case["steps"][1]["kind"] == "block2", info)
+        return Outcome(vio, sorted(labels), out_of_seq or long_idle or interleaved or len(case["steps"]) == 2 and case["steps"][1]["kind"] == "block2" or case.get("render_lens") == [3000], info)
     finally:
         for ep in list(net._contexts):
             try:
@@ -377,6 +377,24 @@ def cases_block2_grid():
                     yield {"steps": [first, {"client": 0, "res": 0, "query": "", "method": "GET", "szx": b, "idle": 0.0, "kind": "block2", "num": num}], "render_lens": [length], "rng": 0}
 
 
+def cases_slow_transfers():
+    """finite grid: a transfer of n blocks with a constant gap between blocks (every gap below MAX_TRANSMIT_WAIT, the whole
+    transfer possibly much longer), optionally with a second client's abandoned transfer on the same resource"""
+    for nblocks in (2, 3, 4, 5, 6):
+        for gap in (1.0, 50.0, 60.0, 92.0):
+            for other in (False, True):
+                for szx in (0, 2):
+                    steps = []
+                    if other:
+                        steps.append({"kind": "block1", "client": 1, "res": 0, "query": "", "method": "PUT", "szx": szx, "idle": 0.0, "rel": "restart", "final": False, "plen": 3, "lenkind": "exact", "num": 1})
+                    for b in range(nblocks):
+                        steps.append({"kind": "block1", "client": 0, "res": 0, "query": "", "method": "PUT", "szx": szx, "idle": gap if b else 0.0, "rel": "next" if b else "restart", "final": b == nblocks - 1, "plen": 7, "lenkind": "exact", "num": 1})
+                    # and read a large rendering back equally slowly
+                    for b in range(1, 4):
+                        steps.append({"kind": "block2", "client": 0, "res": 0, "query": "", "method": "PUT", "szx": 6, "idle": gap, "num": b})
+                    yield {"steps": steps, "render_lens": [3000], "rng": 0}
+
+
 def selftest():
     import aiocoap.blockwise as bw
 
@@ -403,7 +421,7 @@ RULE = (
     "request for block 0-4 or far beyond the end. Handlers record (body, endpoint, method, query) and return a serial-numbered rendering of generated length (0 ... 3000). Oracle = reference model keyed "
     "(endpoint, method, path, query): handler invoked exactly for complete in-order bodies with exactly that body; intermediate block => 2.31 echoing Block1; continuation without / not extending an assembly => 4.08; "
     "length contradiction => 4.00; none of them invokes the handler; never 5.xx; Block2 NUM>0 => exact slice of the cached rendering with M iff bytes remain, beyond the end 4.00, no rendering 4.08; state idle < 92.5 s "
-    "must exist, idle > 186.5 s must be gone, in between either (the model follows the observed answer). block2_grid enumerates rendering length x first-request size x follow-up (number, size) completely. Non-trivial = every grid cell; history with an out-of-sequence step, an idle time >= 92 s, or two clients interleaved on one key. Distinct = SHA-1 of the case."
+    "must exist, idle > 186.5 s must be gone, in between either (the model follows the observed answer). slow_transfers enumerates transfers of 2-6 blocks with every gap below MAX_TRANSMIT_WAIT but a total duration far above it (state must survive because every block is a use). block2_grid enumerates rendering length x first-request size x follow-up (number, size) completely. Non-trivial = every grid cell; history with an out-of-sequence step, an idle time >= 92 s, or two clients interleaved on one key. Distinct = SHA-1 of the case."
 )
 
 
@@ -411,6 +429,7 @@ def build(tier):
     return CheckSpec(
         [
             Sub("block2_grid", run_case, cases=cases_block2_grid, exhaustive=True, note="14 rendering lengths x 6 first-request sizes x 5 follow-up sizes x 5 block numbers"),
+            Sub("slow_transfers", run_case, cases=cases_slow_transfers, exhaustive=True, note="2-6 blocks x gap 1/50/60/92 s x with/without a second client's abandoned transfer x szx 0/2, then Block2 read-back at the same pace"),
             Sub("histories", run_case, strategy=_case, budget={"quick": 3000, "thorough": 50000}, max_wall={"quick": 55, "thorough": 2400}),
         ],
         RULE,
